@@ -5,7 +5,8 @@
    in the mix on x86, amd64 and arm64).  STACK WIN and the evaluation of real rule text are covered by the
    correspondence run (design/C04.md). *)
 From Coq Require Import Lia ZArith List.
-From RM Require Import C05.Model C05.Proofs C04.Model C04.Proofs C04.ProofsFp C04.ProofsMix C04.ProofsRules.
+From RM Require Import C05.Model C05.Proofs C05.Driver C05.ProofsModules C05.ProofsFunction C04.Model C04.Proofs C04.ProofsFp C04.ProofsMix C04.ProofsRules C04.ProofsAttr.
+From RM Require C11.Model C11.Proofs2.
 Import ListNotations.
 Open Scope Z_scope.
 
@@ -146,6 +147,40 @@ Theorem c04_recovers_chain_reached :
     = Ret (from_context r v TContext :: mix_chain a v gp0 (Some fp0) base 0 fs).
 Proof. exact mix_recovers_reached. Qed.
 Print Assumptions c04_recovers_chain_reached.
+
+(* ... with module and function attribution per frame (second pass of round 5): the module lookup is C08's range map over the
+   case's module list ([d_module_at mods], what fill_source_line_info uses), [files i] is any well-formed symbol file of
+   module i.  The walk returns the context frame followed by a chain that is, call by call ([attributed]): lookup address
+   ra - adj, return address ra, the technique label generated for the call, and IF a module is attached it is a module
+   (b, size, _) of the list with b <= ra - adj < b + size, C11's model of SymbolFile::fill_symbol returns on that module's
+   file at that address (either profile), and a function it names is a FUNC record of that file covering the address or a
+   PUBLIC record at or below it (C05's function_covers / C11's func_sound, here over the RECOVERED chain). *)
+Theorem c04_recovers_chain_attributed :
+  forall p q a os max_module_addr instr_valid base fs ip0 fp0 gp0 fuel cfi_walk (mods : list modspec) (files : Z -> C11.Model.raw_file),
+    mix_arch a os ->
+    (forall callee gc fwd, r_lr (f_regs callee) = 0 ->
+                           cfi_walk callee gc fwd = mix_cfi_correct a base fs callee gc fwd) ->
+    mix_wf_layout a instr_valid (d_module_at mods) base ip0 fp0 fs = true ->
+    mods_wf mods -> (forall i, C11.Proofs2.wf_file (files i)) ->
+    (length fs < fuel)%nat ->
+    let '(r, v, mem) := mix_layout a base ip0 fp0 gp0 fs in
+    exists chain,
+      walk_stack current_code p a os mem (d_module_at mods) max_module_addr cfi_walk instr_valid fuel r v
+        = Ret (from_context r v TContext :: chain) /\
+      Forall2 (fun (s : mspec) (f : frame) =>
+                 f_instr f = ms_ra s - a_adj a /\ f_resume f = ms_ra s /\ f_trust f = mix_trust (ms_tech s) /\
+                 forall i, frame_module mods f = Some i ->
+                   exists b sz y, nth_error mods (Z.to_nat i) = Some (b, sz, y) /\ b <= ms_ra s - a_adj a < b + sz /\
+                     exists o, C11.Model.symbolize q (files i) b (ms_ra s - a_adj a) = Ret o /\
+                       forall name fbase ps, C11.Model.o_func o = Some (name, fbase, ps) ->
+                         fbase <= f_instr f /\
+                         ((exists fr, In fr (C11.Model.rf_funcs (files i)) /\ name = C11.Model.fr_name fr /\
+                                      fbase = b + C11.Model.fr_addr fr /\ f_instr f < fbase + C11.Model.fr_size fr)
+                          \/ (exists pb, In pb (C11.Model.rf_publics (files i)) /\ name = C11.Model.p_name pb /\
+                                         fbase = b + C11.Model.p_addr pb)))
+              fs chain.
+Proof. exact mix_recovers_attributed. Qed.
+Print Assumptions c04_recovers_chain_attributed.
 
 (* ... read column by column: frame i of the recovered chain has lookup address ra_i - adj (its module is the module
    lookup of that address, C08), return address ra_i and the technique label generated for call i; one frame per call *)
@@ -381,3 +416,26 @@ Proof.
   cbn [mix_layout]. eexists. split; [vm_compute; reflexivity|]. repeat split; reflexivity.
 Qed.
 Print Assumptions c04_fp_behind_cfi_known_witness.
+
+(* c04_recovers_chain_attributed is not vacuous: the module list [0x40000000, +0x10000) gives the module lookup of the
+   64-call x86 stack above, the precondition holds with it, and the second call's lookup address (0x4000010f) gets the
+   FUNC 100 100 record of the module's symbol file *)
+Definition nv_amods : list modspec := [(1073741824, 65536, None)].
+Definition nv_afile : C11.Model.raw_file := C11.Model.mk_raw [] [] [] [C11.Model.mk_fraw 256 256 0 102 [] []] [] [].
+Example c04_nonvacuous_attributed :
+  mix_wf_layout x86 nv_iv (d_module_at nv_amods) 2147483648 1073741904 (nv_fp3 x86 2147483648 64) (nv_mix3 x86 2147483648 64) = true /\
+  mods_wf nv_amods /\ C11.Proofs2.wf_file nv_afile /\
+  map ms_ra (firstn 2 (nv_mix3 x86 2147483648 64)) = [1073742080; 1073742096] /\
+  d_module_at nv_amods (1073742096 - a_adj x86) = Some 0 /\
+  exists o, C11.Model.symbolize Release nv_afile 1073741824 (1073742096 - a_adj x86) = Ret o /\
+            C11.Model.o_func o = Some (102, 1073741824 + 256, 0).
+Proof.
+  split; [vm_compute; reflexivity|]. split.
+  { repeat constructor; cbn; lia. }
+  split.
+  { unfold C11.Proofs2.wf_file, nv_afile; cbn [C11.Model.rf_funcs C11.Model.rf_publics C11.Model.rf_win_fd C11.Model.rf_win_fpo].
+    repeat split; try constructor; try constructor;
+      unfold C11.Proofs2.wf_fraw, C11.Proofs2.u64, C11.Proofs2.u32; cbn; repeat split; try constructor; try lia; try reflexivity. }
+  split; [vm_compute; reflexivity|]. split; [vm_compute; reflexivity|].
+  eexists. split; vm_compute; reflexivity.
+Qed.
